@@ -20,7 +20,9 @@
 (* finding C13-schema-buffer.                                              *)
 (***************************************************************************)
 EXTENDS Naturals, Integers, FiniteSets, TLC
-CONSTANTS Docs, TreeSizes, FixSchemaLeak,  \* FixSchemaLeak = TRUE: model of a repaired allocateSchemaStringBuffer
+CONSTANTS Docs, TreeSizes,
+          SchemaChain,   \* TRUE (the code since its repair): every ParseSchema text buffer is kept, chained, until the document dies
+          FixSchemaLeak,  \* FixSchemaLeak = TRUE: model of a repaired allocateSchemaStringBuffer
           SlotStringsOwned           \* TRUE (the code): a string that lands in an existing slot is copied (SetString(s, alloc));
                                      \* FALSE: it is stored as a borrowed view of schema_str_ (a design that is shown to dangle)
 VARIABLES doc, orphans, dangling, nlive, last,
@@ -31,9 +33,10 @@ NoSnap == [on |-> FALSE, src |-> 0, ref |-> FALSE]
 \* the copy loses bytes when the schema buffer of document x is released
 Rel(x) == snap.on /\ snap.ref /\ snap.src = x
 
-Empty == [alive |-> TRUE, tree |-> 0, str |-> FALSE, sch |-> FALSE, refstr |-> FALSE, refsch |-> FALSE, slotc |-> FALSE]
+Empty == [alive |-> TRUE, tree |-> 0, str |-> FALSE, sch |-> FALSE, schn |-> 0, refstr |-> FALSE, refsch |-> FALSE, slotc |-> FALSE]
 B(x) == IF x THEN 1 ELSE 0
-Held(d) == IF doc[d].alive THEN doc[d].tree + B(doc[d].str) + B(doc[d].sch) ELSE 0
+\* schn = number of schema text buffers the document holds (at most 1 unless SchemaChain)
+Held(d) == IF doc[d].alive THEN doc[d].tree + B(doc[d].str) + doc[d].schn ELSE 0
 
 Init == /\ doc = [d \in Docs |-> Empty] /\ orphans = 0 /\ dangling = FALSE /\ nlive = 0 /\ snap = NoSnap
         /\ last = [op |-> "init"]
@@ -42,7 +45,7 @@ Init == /\ doc = [d \in Docs |-> Empty] /\ orphans = 0 /\ dangling = FALSE /\ nl
 \* allocated; on success the tree is built (k blocks) and its strings point into str_
 Parse(d, ok, k) ==
   /\ doc[d].alive
-  /\ doc' = [doc EXCEPT ![d] = [alive |-> TRUE, tree |-> IF ok THEN k ELSE 0, str |-> TRUE, sch |-> FALSE,
+  /\ doc' = [doc EXCEPT ![d] = [alive |-> TRUE, tree |-> IF ok THEN k ELSE 0, str |-> TRUE, sch |-> FALSE, schn |-> 0,
                                 refstr |-> ok /\ k > 0, refsch |-> FALSE, slotc |-> FALSE]]
   /\ nlive' = nlive - Held(d) + 1 + (IF ok THEN k ELSE 0)
   /\ dangling' = (dangling \/ (doc[d].sch /\ Rel(d)))
@@ -54,14 +57,15 @@ Parse(d, ok, k) ==
 ParseSchema(d, ok, k) ==
   /\ doc[d].alive
   /\ LET hadsch == doc[d].sch
-         leak == hadsch /\ ~FixSchemaLeak IN
-     /\ doc' = [doc EXCEPT ![d].tree = k, ![d].sch = TRUE, ![d].refsch = (doc[d].refsch \/ k > 0),
+         leak == hadsch /\ ~FixSchemaLeak /\ ~SchemaChain IN
+     /\ doc' = [doc EXCEPT ![d].tree = k, ![d].sch = TRUE, ![d].schn = (IF SchemaChain THEN doc[d].schn + 1 ELSE 1),
+                            ![d].refsch = (doc[d].refsch \/ k > 0),
                             ![d].slotc = (doc[d].slotc \/ (k > 0 /\ ~SlotStringsOwned))]
      /\ orphans' = orphans + B(leak)
      \* a repaired version may only release the old buffer if no node points into it
-     /\ dangling' = (dangling \/ (hadsch /\ FixSchemaLeak /\ (doc[d].refsch \/ Rel(d))))
+     /\ dangling' = (dangling \/ (hadsch /\ FixSchemaLeak /\ ~SchemaChain /\ (doc[d].refsch \/ Rel(d))))
      /\ UNCHANGED snap
-     /\ nlive' = nlive - doc[d].tree + k + 1 - B(hadsch /\ FixSchemaLeak)
+     /\ nlive' = nlive - doc[d].tree + k + 1 - B(hadsch /\ FixSchemaLeak /\ ~SchemaChain)
   /\ last' = [op |-> "parseschema", d |-> d, ok |-> ok, k |-> k]
 
 \* move assignment a = std::move(b) (:62-84) and move construction
@@ -118,5 +122,5 @@ Exact == nlive = HeldAll + orphans
 NoDangling == ~dangling
 NoLeak == orphans = 0
 \* orphans only grows: bound it for model checking
-Bound == orphans <= 2
+Bound == orphans <= 2 /\ \A d \in Docs : doc[d].schn <= 3
 =============================================================================
